@@ -185,8 +185,9 @@ def extorder(F, rep):
     rep.floor("EXTORDER", "functions probing module file extensions", n, 2)
 
 
-def decl_value(F, kind, vis):
-    """A Spanned<Declaration> value with the given kind and visibility (other fields unknown)."""
+def decl_value(F, kind, vis, populated=False):
+    """A Spanned<Declaration> value with the given kind and visibility (other fields unknown). With populated=True
+    every collection of children (variants, fields, methods ...) holds one element, so that loops over them run."""
     structs = {"Const": "ConstDecl", "Model": "ModelDecl", "Class": "ClassDecl", "Enum": "EnumDecl",
                "Newtype": "NewtypeDecl", "Trait": "TraitDecl", "Function": "FunctionDecl", "Import": "ImportDecl"}
     if kind == "Docstring":
@@ -199,7 +200,8 @@ def decl_value(F, kind, vis):
                 if fl["name"] == "visibility":
                     fields["visibility"] = enum(VIS, vis)
                 elif fl["ty"].startswith("alloc::vec::Vec<"):
-                    fields[fl["name"]] = ("vec", ())
+                    child = ("struct", AST + "Spanned", {"node": UNKNOWN, "span": UNKNOWN})
+                    fields[fl["name"]] = ("vec", (child,) if populated else ())
                 else:
                     fields[fl["name"]] = UNKNOWN
         node = enum(DECL, kind, [("struct", sname, fields)])
@@ -331,7 +333,7 @@ def visfilter(F, rep):
                     if last == "new" and "Vec" in gen:
                         return ("vec", ())
                     return None
-                prog = ("struct", AST + "Program", {"declarations": ("vec", (decl_value(F, k, vis),))})
+                prog = ("struct", AST + "Program", {"declarations": ("vec", (decl_value(F, k, vis, populated=True),))})
                 try:
                     Evaluator(F, call_hook=hook).run(ex, [("ref", {0: prog}, {"l": 0, "p": []})])
                     got = len(pushes) > 0
